@@ -343,6 +343,40 @@ fn uses(l: &PList, reps: usize) -> Vec<(&'static str, Cell)> {
         }
     }
     out.push(("improper-use", Cell::new_improper_list(items.clone(), sym("z"))));
+    // every way of cutting one list of a matching input (at any nesting level) to a proper prefix: inputs that end
+    // before, at and after an ellipsis with required items still to come
+    let mut seen: Vec<String> = out.iter().map(|(_, c)| format!("{:#}", c)).collect();
+    for rep in if has_ell { 0..=1usize } else { 1..=1usize } {
+        let mut ctr = 0;
+        let full = fill(l, rep, &mut ctr);
+        for t in truncations(&full) {
+            let k = format!("{:#}", t);
+            if !seen.contains(&k) {
+                seen.push(k);
+                out.push(("truncated", t));
+            }
+        }
+    }
+    out
+}
+
+/// All data obtained from a proper list structure by cutting exactly one of its lists to a proper prefix.
+fn truncations(c: &Cell) -> Vec<Cell> {
+    let items: Vec<Cell> = match c {
+        Cell::Pair(_, _) if c.is_list() => c.iter().cloned().collect(),
+        _ => return vec![],
+    };
+    let mut out = vec![];
+    for n in 0..items.len() {
+        out.push(Cell::new_list(items[..n].to_vec()));
+    }
+    for (i, it) in items.iter().enumerate() {
+        for t in truncations(it) {
+            let mut m = items.clone();
+            m[i] = t;
+            out.push(Cell::new_list(m));
+        }
+    }
     out
 }
 
